@@ -15,4 +15,9 @@ package rule
 // The first loop of ToCommandLine records, per field id, an index into
 // r.fields; later code uses those indices on r.values.
 //@ func rule.ToCommandLine
+//@ ensures[C13] err == nil ==> len(wf) >= 1040 && le32(wf, 8) <= 64 && le32(wf, 1036) + 1040 <= len(wf)
 //@ loop 0 invariant forall k field :: k in existingFields ==> 0 <= existingFields[k] && existingFields[k] < len(r.fields)
+//
+// Decoding: the running string offset never passes the declared buffer length.
+//@ func (*rule.ruleData).fromAuditRuleData
+//@ loop 3 invariant offset <= in.BufLen
